@@ -1,4 +1,5 @@
 """C01 -- orbital element forms are lossless, definition-true views of one state (DESIGN.md section C01)."""
+import importlib
 import math
 import types
 
@@ -545,6 +546,68 @@ def m2e_case(family, maxdepth):
                      f"{maxdepth} decisions) the returned anomaly solves Kepler's equation to 2 e tol")
 
 
+class _Stop(Exception):
+    pass
+
+
+def m2e_start_case(family):
+    """The Newton start value chosen by the real M2E (observed as the argument of its first sin/sinh call) is
+    representable: |start| <= 700, the range where binary64 sinh/cosh are finite, for every e in the family's range and
+    |M| <= 400.  A start value outside that range makes the first iterate inf/nan and M2E returns nan silently."""
+    ins = [("e", "pos"), ("M", "real")]
+
+    def pre(v):
+        dom = [v["M"] <= 400, v["M"] >= -400]
+        if family == "ell":
+            return dom + [v["e"] < 1]
+        return dom + [v["e"] > R.const(1.001), v["e"] <= 20]
+
+    def env_const(x):
+        from symx.core import R
+        return R.const(x)
+
+    def run(env, v):
+        forms = env.mod("beyond.orbits.forms") if env.symbolic else importlib.import_module("beyond.orbits.forms")
+        name = "sin" if family == "ell" else "sinh"
+        first = []
+        saved = getattr(forms, name)
+
+        def hook(x):
+            first.append(x)
+            raise _Stop()
+        setattr(forms, name, hook)
+        try:
+            forms.Form.M2E(v["e"], v["M"])
+        except _Stop:
+            pass
+        finally:
+            setattr(forms, name, saved)
+        x0 = first[0]
+        if env.symbolic:
+            return {"start_finite": Holds((x0 <= 700) & (x0 >= -700))}
+        import signal
+
+        def _to(*a):
+            raise TimeoutError("M2E did not terminate within 5 s")
+        signal.signal(signal.SIGALRM, _to)
+        signal.alarm(5)
+        try:
+            with np.errstate(all="ignore"):
+                out = forms.Form.M2E(v["e"], v["M"])
+            ok = math.isfinite(out)
+        except (TimeoutError, OverflowError):
+            ok = False
+        finally:
+            signal.alarm(0)
+        return {"start_finite": Holds(abs(x0) <= 700 and ok)}
+
+    def ref(env, v, out):
+        return {"start_finite": None}
+    return Case(f"M2E/{family}/start", ins, run, ref, pre=pre, timeout=60, maxpaths=64,
+                desc=f"{family}: the Newton start value of M2E stays within +-700 (binary64 sinh/cosh finite) for |M| <= 400; "
+                     "concretely the returned anomaly is finite")
+
+
 # =========================================================================== Infos
 def infos_case(family):
     from symx.stubs import FrameStub, SymTD
@@ -661,7 +724,7 @@ def all_cases(tier):          # noqa: F811  (extends the list defined above)
     cs = [sph_def_case(), sph_back_case(), cyl_case(), cyl_back_case()]
     for fam in ("ell", "hyp"):
         cs += [ecc_case(fam), ecc_back_case(fam), mean_case(fam), k2c_case(fam), kck_case(fam, 30 if tier == "quick" else 600),
-               m2e_case(fam, 8 if tier == "quick" else 11), infos_case(fam)]
+               m2e_case(fam, 8 if tier == "quick" else 11), m2e_start_case(fam), infos_case(fam)]
     cs += [tle_case(), tle_back_case(), circ_case(False), circ_case(True), equi_case(), c2k_def_case("any")]
     return cs
 
